@@ -32,8 +32,8 @@ TRUSTED_BASE = [
     "GrammarError checks of _verify_grammar_structure_part1 are outside the model; the model-side validator wf_grammar "
     "(keys distinct and no terminals, rules stored under their own symbol, only known symbols, start symbol is a key, "
     "$END$ is a terminal) is evaluated on every built grammar by C02.Run and must be true (it is the hypothesis of the theorems)",
-    "ll1_reject / parse_returns_derivation import C01.Props.parse_sound_build (proved in coq/C01, checked by C01's own run); "
-    "its hypothesis hyps_ok (C01's validator of the factorization) is evaluated by C02.Run on every generated grammar",
+    "ll1_reject / parse_returns_derivation import C01.Props.parse_sound_constructor (proved in coq/C01 for every parser the "
+    "constructor model accepts, checked by C01's own run); hyps_ok is still evaluated by C02.Run on every grammar as a cross-check",
 ]
 ASSUMPTIONS = ["grammars use plain productions (templates are C05's subject)",
                "grammars are not left recursive (C03's subject); the generator filters with an independent check"]
@@ -542,7 +542,7 @@ LEVEL_TEXT = ("Partial.  Full theorems (model level, all grammars accepted by th
               "table_complete, table_sound, is_ambiguous_spec (False iff no cell holds two rules), ll1_iff_not_ambiguous (the table "
               "of a grammar is conflict-free iff that grammar is LL(1)), ll1_reject + parse_returns_derivation (a non-sentence of the "
               "USER's grammar is never accepted, an accepted text is a sentence and the tree its derivation; for any table, both "
-              "smart values; by C01.parse_sound_build, not re-proved).  Partial: ll1_reported_partial / "
+              "smart values; by C01.parse_sound_constructor, not re-proved).  Partial: ll1_reported_partial / "
               "ll1_reported_no_common_prefix (LL(1) as written => is_ambiguous() False) only when the factorization is the identity "
               "(factorization_identity: no two adjacent alternatives with the same first symbol), for other grammars only "
               "ll1_reported_factorized (conflict-free iff the FACTORIZED grammar is LL(1)); ll1_complete_partial + "
@@ -553,6 +553,6 @@ LEVEL_TEXT = ("Partial.  Full theorems (model level, all grammars accepted by th
               "(termination, C03).  Those clauses are tested on every run by the correspondence and the oracle "
               "(both smart values, members and non-members).")
 LEVEL_NOTE = ("Trusted: Coq kernel + vm_compute; fidelity of the hand model coq/LLP (checked by correspondence on every run, incl. the "
-              "internal nullable/FIRST/FOLLOW sets and the table in the thorough tier); wf_grammar and C01's hyps_ok are "
-              "evaluated on every generated grammar (translation validation of the theorems' hypotheses); the tokenizer; the harness.")
+              "internal nullable/FIRST/FOLLOW sets and the table in the thorough tier); wf_grammar is "
+              "evaluated on every generated grammar (translation validation of the theorems' hypothesis); the tokenizer; the harness.")
 DESIGN_REF = "DESIGN.md section 8, C02"
